@@ -825,3 +825,131 @@ def rule_persistent_path_balanced(ctx, rep, rid: str) -> None:
                     rep.ok(rid, k2)
                 else:
                     rep.bad(rid, k2, f"{g.qual} registers a container with {short(cs.call, 30)} on `{lst}`, which lives on the context, and the next statement is not a try whose finally removes it: an exception in between leaves the entry behind for every later conversion", f"{g.module.rel}:{cs.call.lineno}")
+
+
+# ---- a native that hands control to a script-supplied native does so under the host-depth budget -------
+
+
+def _host_call_helpers(ctx) -> Dict[int, Tuple[Func, int, Optional[int]]]:
+    """Methods whose body calls one of their own parameters with another parameter spread out (`fn(*args)`):
+    id -> (helper, index of the callee parameter, index of the argument-list parameter), self not counted."""
+    out = {}
+    for f in ctx.tree.funcs:
+        if isinstance(f.node, ast.Lambda) or f.cls is None:
+            continue
+        params = [p for p in f.params() if p != "self"]
+        for n in f.own_nodes():
+            if isinstance(n, ast.Call) and isinstance(n.func, ast.Name) and n.func.id in params:
+                spread = [a.value.id for a in n.args if isinstance(a, ast.Starred) and isinstance(a.value, ast.Name) and a.value.id in params]
+                if spread and not any(isinstance(x, ast.Call) and _JSFUNC_TEST.match(norm(x)) for x in f.own_nodes()):
+                    out[id(f)] = (f, params.index(n.func.id), params.index(spread[0]))
+    return out
+
+
+def _guard_nodes(ctx, f: Func, cfg) -> Set[int]:
+    """CFG nodes of f that charge one host level: a call of a method holding the depth guard, or the guard itself."""
+    out = set()
+    for nd in cfg.nodes:
+        if nd.ast is None:
+            continue
+        a = nd.ast
+        if isinstance(a, ast.If):
+            a = a.test
+        for x in ast.walk(a) if not isinstance(a, (ast.FunctionDef, ast.ClassDef)) else []:
+            if isinstance(x, ast.Call) and isinstance(x.func, ast.Attribute) and f.cls is not None and norm(x.func.value) == "self":
+                h = ctx.tree.find_method(f.cls, x.func.attr)
+                if h is not None and h is not f and _has_depth_guard(h, None):
+                    out.add(nd.id)
+    return out
+
+
+def _site_guarded(ctx, f: Func, call: ast.Call) -> bool:
+    """Every path from f's entry to the statement holding `call` charges a host level first."""
+    if isinstance(f.node, ast.Lambda):
+        return False
+    cfg = ctx.facts.cfg(f)
+    guards = _guard_nodes(ctx, f, cfg)
+    if not guards:
+        return False
+    at = [nd for nd in cfg.nodes if nd.ast is not None and nd.id not in guards and any(x is call for x in ast.walk(nd.ast if not isinstance(nd.ast, ast.If) else nd.ast.test))]
+    if not at:
+        return False
+    return all(cfg.path_avoiding(cfg.entry.id, lambda nd, t=t: nd.id == t.id, guards, None) is None for t in at)
+
+
+def rule_native_to_native_counted(ctx, rep, rid: str) -> None:
+    """Natives take callbacks, and a callback may itself be a native (forEach handed to forEach, with the array
+    holding forEach).  A helper that forwards a caller-supplied argument LIST to a script-supplied host callable is a
+    link native -> native of arbitrary arity: a script can close the cycle, every turn of it is a host frame, and
+    none of them is a script frame the call-stack limit would count.  Such a forwarding call either charges the
+    host-depth budget itself, or cannot be reached from a native except through calls that do."""
+    rep.rule(rid, "a helper that forwards a caller-supplied argument list to a script-supplied host callable (a native used as a callback) makes that call under the host-depth budget whenever natives can reach the helper without being charged on the way (native -> native cycles nest host frames only)", floor=1)
+    cg = ctx.cg
+    helpers = _host_call_helpers(ctx)
+    if not helpers:
+        raise AnalysisError("no helper calling a host callable with a forwarded argument list found (`fn(*args)` on parameters)")
+    # forwarding sites: helper(p, .., lst) where p and lst are parameters of the caller, or p(*lst) with the same
+    sites = []
+    fixed = []
+    for f in ctx.tree.funcs:
+        if isinstance(f.node, ast.Lambda) or id(f) in helpers:
+            continue
+        params = set(f.params()) - {"self"}
+        tests = {m.group(1) for n in f.own_nodes() if isinstance(n, ast.Call) for m in [re.match(r"^isinstance\((\w+), JSFunction\)$", norm(n))] if m}
+        for cs in cg.sites_of.get(id(f), []):
+            c = cs.call
+            callee = lst = None
+            if cs.kind == "resolved" and any(id(t) in helpers for t in cs.targets):
+                h, ci, li = helpers[[id(t) for t in cs.targets if id(t) in helpers][0]]
+                if len(c.args) > max(ci, li) and not any(isinstance(a, ast.Starred) for a in c.args):
+                    callee, lst = c.args[ci], c.args[li]
+            elif cs.kind == "dynamic" and isinstance(c.func, ast.Name):
+                callee = c.func
+                sp = [a.value for a in c.args if isinstance(a, ast.Starred)]
+                lst = sp[0] if sp else ast.List(elts=list(c.args), ctx=ast.Load())
+            if callee is None or not isinstance(callee, ast.Name) or callee.id not in tests:
+                continue  # not a dispatch on what kind of function value this is
+            if isinstance(lst, ast.Name):
+                sites.append((f, cs, callee.id, lst.id))
+            else:
+                fixed.append((f, cs, callee.id, norm(lst)))
+    if not sites:
+        raise AnalysisError("no site forwarding a caller's argument list to a script-supplied host callable found (callback helper vanished?)")
+    # functions natives reach without being charged: follow resolved calls, skipping the ones made under the budget
+    q = [v[0] for v in cg.natives.values()]
+    par: Dict[int, Optional[int]] = {id(x): None for x in q}
+    funcs = {id(x): x for x in q}
+    memo: Dict[int, bool] = {}
+    while q:
+        g = q.pop(0)
+        for cs in cg.sites_of.get(id(g), []):
+            if cs.kind != "resolved":
+                continue
+            new = [t for t in cs.targets if id(t) not in par]
+            if not new:
+                continue
+            k = id(cs.call)
+            if k not in memo:
+                memo[k] = _site_guarded(ctx, g, cs.call)
+            if memo[k]:
+                continue
+            for t in new:
+                par[id(t)] = id(g)
+                funcs[id(t)] = t
+                q.append(t)
+    for f, cs, callee, lst in sites:
+        key = f"{f.qual}:{callee}(*{lst})"
+        loc = f"{f.module.rel}:{cs.line}"
+        if _site_guarded(ctx, f, cs.call):
+            rep.ok(rid, key, {"charged": "every path to the call passes the host-depth guard", "at": loc})
+        elif id(f) not in par:
+            rep.ok(rid, key, {"unreachable": "natives reach this helper only through calls made under the budget (the run loop)", "at": loc})
+        else:
+            chain = []
+            cur: Optional[int] = id(f)
+            while cur is not None and len(chain) < 6:
+                chain.append(funcs[cur].qual.split(":")[-1])
+                cur = par.get(cur)
+            rep.bad(rid, key, f"{f.qual} hands the caller's argument list `{lst}` to the host callable `{callee}` ({short(cs.call, 50)}) without charging a host level, and natives reach it uncharged ({' <- '.join(chain)}): a native passed to a native as its callback, with itself among the values it is called with (a.push(a.forEach); a.forEach(a.forEach)), recurses in host frames only and ends in the host's RecursionError instead of the engine's limit error", loc)
+    for f, cs, callee, lst in fixed:
+        rep.ok(rid, f"{f.qual}:{callee}({lst}):fixed-arguments", {"note": "a fixed argument list: closing a cycle needs a native that re-enters with these arguments only; not decided statically", "at": f"{f.module.rel}:{cs.line}"})
